@@ -84,8 +84,9 @@ func runProcClockPoint(t *testing.T, c cpCase) (fired bool, err error) {
 		removedAt := map[int]int{}                                                        // item id -> number of runs of it when its removal call returned
 		live := map[int]time.Time{1: base.Add(time.Second), 2: base.Add(2 * time.Second)} // item id -> scheduled time, for items that must run
 		var runsOf func(id int) int
+		var armed atomic.Bool // set once the two initial items are queued: the injected call never overlaps the set-up (an injected Enqueue of key 2 that lands BEFORE the set-up's own Enqueue of key 2 would be replaced by it, which the model does not describe)
 		on := func(point string) {
-			if point != c.Point || injected.Load() {
+			if !armed.Load() || point != c.Point || injected.Load() {
 				return
 			}
 			mu.Lock()
@@ -180,6 +181,7 @@ func runProcClockPoint(t *testing.T, c cpCase) (fired bool, err error) {
 		proc.Enqueue(items[1])
 		proc.Enqueue(items[2])
 		synctest.Wait()
+		armed.Store(true)
 		// at every settled point: whatever is live and whose time the clock has reached has run
 		onTime := func(step string) bool {
 			if injected.Load() && !injectedReturned.Load() {
